@@ -166,8 +166,11 @@ def finish(ctx: Ctx, t0: float, technique: str, assumptions: List[str], explanat
             "violations": len(violations),
         }
         _validate(ev)
-        os.makedirs(EVIDENCE_DIR, exist_ok=True)
-        with open(os.path.join(EVIDENCE_DIR, f"{ctx.prop}.json"), "w") as fh:
+        # runs against a scratch tree (NQSA_REPO) never overwrite the evidence of /repo
+        root = ctx.repo.root if ctx.repo is not None else "/repo"
+        evdir = EVIDENCE_DIR if os.path.realpath(root) == os.path.realpath("/repo") else os.path.join(EVIDENCE_DIR, "scratch")
+        os.makedirs(evdir, exist_ok=True)
+        with open(os.path.join(evdir, f"{ctx.prop}.json"), "w") as fh:
             json.dump(ev, fh, indent=1, default=str)
     print(
         f"SUMMARY property={ctx.prop} tier={ctx.tier} obligations={ctx.obligations} discharged={ctx.discharged} "
